@@ -29,7 +29,7 @@ theorem insync_mem_iff {s : SInfo ι} {f : Filter} {i : VInfo ι} (hm : isMem f 
 
 /-- any view of a tainted block whose must-set is empty is fine, whatever the memory holds -/
 theorem viewOK_tainted {X : Nat} {s : SInfo ι} {f : Filter} {i : VInfo ι} (hm : isMem f = true) (ht : s.tainted = true) (hM : i.M = [])
-    (hk : i.promised = true → 1 ≤ f.numHashes) (hsv : i.sync ≤ s.ver) : ViewOK P hf X s f i := by
+    (hk : i.promised = true → KOK f) (hsv : i.sync ≤ s.ver) : ViewOK P hf X s f i := by
   have hin : insync s f i = false := insync_mem_false_of_tainted hm ht
   refine ⟨fun _ => hM, ?_, hk, ?_, ?_, ?_, ?_, ?_, fun _ => hsv, fun _ _ => hM, ?_⟩
   · intro _ _ h; rw [ht] at h; cases h
@@ -92,7 +92,7 @@ theorem committed_isEmpty (f : Filter) (x nbs : Nat) (d : Bool) : (committed f x
 
 /-- the acting view after a disciplined write through a promised, in-sync, writable memory view -/
 theorem viewOK_actor_mem {X' : Nat} {s' : SInfo ι} {f : Filter} {i : VInfo ι} (hm : isMem f = true) (hp : i.promised = true)
-    (hk : 1 ≤ f.numHashes) (x nbs' : Nat) (d' : Bool) (M' : List ι) (hver : s'.ver = i.sync + 1) (ht' : s'.tainted = false)
+    (hk : KOK f) (x nbs' : Nat) (d' : Bool) (M' : List ι) (hver : s'.ver = i.sync + 1) (ht' : s'.tainted = false)
     (hhs : Hashed hf f.seed M') (hcov : Covers hf X' (f.off P) f.cfg M')
     (hne : M' ≠ [] → d' = true ∨ nbs' ≠ 0)
     (hex : d' = false → nbs' = popCount X' (f.off P) f.capBits)
@@ -102,7 +102,7 @@ theorem viewOK_actor_mem {X' : Nat} {s' : SInfo ι} {f : Filter} {i : VInfo ι} 
   refine ⟨?_, ?_, ?_, ?_, ?_, ?_, ?_, ?_, ?_, ?_, ?_⟩
   · intro h; simp only at h; rw [hp] at h; cases h
   · intro h; simp only at h; rw [hp] at h; cases h
-  · intro _; rw [hf'.2.1]; exact hk
+  · intro _; exact ⟨by rw [hf'.2.1]; exact hk.1, by rw [hf'.1]; exact hk.2⟩
   · rw [hf'.2.2.1]; exact hhs
   · rw [committed_off, committed_cfg]; exact hcov
   · intro hM
@@ -121,7 +121,7 @@ theorem viewOK_actor_mem {X' : Nat} {s' : SInfo ι} {f : Filter} {i : VInfo ι} 
   · intro h; rw [committed_isMem, hm] at h; cases h
 
 /-- the acting view after a write through an owned filter -/
-theorem viewOK_actor_own {s' : SInfo ι} {f : Filter} {i : VInfo ι} (hm : isMem f = false) (hk : i.promised = true → 1 ≤ f.numHashes)
+theorem viewOK_actor_own {s' : SInfo ι} {f : Filter} {i : VInfo ι} (hm : isMem f = false) (hk : i.promised = true → KOK f)
     (x nbs' : Nat) (d' : Bool) (M' : List ι)
     (hup : i.promised = false → M' = [] ∧ s'.S = [])
     (hhs : Hashed hf f.seed M') (hcov : Covers hf x 0 f.cfg M')
@@ -135,7 +135,7 @@ theorem viewOK_actor_own {s' : SInfo ι} {f : Filter} {i : VInfo ι} (hm : isMem
   refine ⟨?_, ?_, ?_, ?_, ?_, ?_, ?_, ?_, ?_, ?_, ?_⟩
   · intro h; exact (hup h).1
   · intro _ h; rw [committed_isMem, hm] at h; cases h
-  · intro h; rw [hf'.2.1]; exact hk h
+  · intro h; exact ⟨by rw [hf'.2.1]; exact (hk h).1, by rw [hf'.1]; exact (hk h).2⟩
   · rw [hf'.2.2.1]; exact hhs
   · rw [committed_off, committed_cfg, hoff]; exact hcov
   · intro hM
